@@ -699,3 +699,70 @@ func enumHandshake(emit emitFn) {
 			Exp: Expect{Kind: "client-error"}, Note: "d0 " + h.name})
 	}
 }
+
+// ---- (g) reader operations on delivered uploads -------------------------------------------------
+
+var gFile = filePart{"0", "r.txt", "text/plain", []byte("abcde")}
+
+func readerAlphabet(L int) []ROp {
+	var al []ROp
+	for _, n := range []int{0, 1, L, L + 1} {
+		al = append(al, ROp{Kind: "read", N: n})
+	}
+	for whence := 0; whence <= 2; whence++ {
+		for _, off := range []int64{0, 1, int64(L) - 1, int64(L), int64(L) + 1, 512, -1} {
+			al = append(al, ROp{Kind: "seek", Off: off, Whence: whence})
+		}
+	}
+	return append(al, ROp{Kind: "readall"})
+}
+
+// enumG: every operation sequence up to a length, on the in-memory and on the spill-file
+// branch, for one file mapped to one path and to two paths.
+func enumG(tier string, emit emitFn) {
+	maxLen := 3
+	files := []filePart{gFile}
+	if tier == "thorough" {
+		maxLen = 4
+		files = append(files, filePart{"0", "one.txt", "text/plain", []byte("Z")})
+	}
+	for _, file := range files {
+		al := readerAlphabet(len(file.content))
+		for _, mode := range memModes {
+			for _, two := range []bool{false, true} {
+				shape, paths := upShapes[0], []string{"variables.file"}
+				if two {
+					shape, paths = upShapes[2], []string{"variables.files.0", "variables.files.1"}
+				}
+				exp, _ := expectUpload(shape, []filePart{file}, [][]string{paths})
+				body := closeBody(fieldPart("operations", shape.operations()), fieldPart("map", mapJSON([]string{"0"}, [][]string{paths})), file.part())
+				for l := 1; l <= maxLen; l++ {
+					if tier == "thorough" && l == maxLen && len(file.content) == 1 {
+						continue // the 1-byte file goes one level less deep
+					}
+					idx := make([]int, l)
+					for {
+						ops := make([]ROp, l)
+						for i, k := range idx {
+							ops[i] = al[k]
+						}
+						emit(&HTTPCase{Part: "g", Endpoint: "MULTIPART", Class: "upload-reader(" + mode.name + ")", CType: mpCType, Body: body, Up: true,
+							MaxMem: mode.maxMem, Exp: exp, Ops: ops, Note: fmt.Sprintf("g %s paths=%d file=%dB", mode.name, len(paths), len(file.content))})
+						p := l - 1
+						for p >= 0 {
+							idx[p]++
+							if idx[p] < len(al) {
+								break
+							}
+							idx[p] = 0
+							p--
+						}
+						if p < 0 {
+							break
+						}
+					}
+				}
+			}
+		}
+	}
+}
